@@ -50,6 +50,11 @@ func (ex *Exec) evalModifies(clauses []*Clause, se *SpecEnv) (locs []modLoc, all
 				part = strings.TrimSpace(part[:i])
 			}
 			ls := ex.evalModPart(part, se)
+			for _, l := range ls {
+				if l.comp == "*" {
+					return nil, true
+				}
+			}
 			for i := range ls {
 				ls[i].cond = cond
 			}
@@ -138,6 +143,38 @@ func (ex *Exec) evalModPart(part string, se *SpecEnv) (locs []modLoc) {
 		}
 	}
 	// location expression: *p, x.f
+	if u, ok := e.(*SUn); ok && u.Op == "*" {
+		// *x for an interface-typed x holding a pointer: the pointee known from the call site
+		v, t := se.eval(u.X)
+		if _, isIface := types.Unalias(t).Underlying().(*types.Interface); isIface {
+			vt, _ := v.(*Term)
+			if vt != nil && vt.IsLeaf() {
+				if a, ok := ex.addrVals[vt.Op]; ok {
+					if len(a.idx) == 0 {
+						return []modLoc{{comp: a.comp, sort: a.compSort}}
+					}
+					return []modLoc{{comp: a.comp, sort: a.compSort, idx: a.idx[0]}}
+				}
+			}
+			if vt != nil {
+				if bt, ok := ex.boxedPtr[vt.String()]; ok {
+					if pt, ok := types.Unalias(bt).Underlying().(*types.Pointer); ok {
+						if su, isS := types.Unalias(pt.Elem()).Underlying().(*types.Struct); isS {
+							for fi := 0; fi < su.NumFields(); fi++ {
+								cn, cs, _ := ex.fieldComp(pt.Elem(), fi)
+								locs = append(locs, modLoc{comp: cn, sort: cs, idx: vt})
+							}
+							return locs
+						}
+						a := ex.cellAddr(vt, pt.Elem())
+						return []modLoc{{comp: a.comp, sort: a.compSort, idx: a.idx[0]}}
+					}
+				}
+			}
+			// dynamic pointee unknown: everything may be modified
+			return []modLoc{{comp: "*"}}
+		}
+	}
 	a := ex.evalLocation(se, e)
 	if len(a.idx) == 0 {
 		return []modLoc{{comp: a.comp, sort: a.compSort}}
